@@ -26,6 +26,18 @@ CHECKS.update({
    note="Host and plugin share the interner (as the loader arranges), so node ids cross as keys. No DLL boundary is crossed; the encoding functions the loader calls are what is checked.",
    design="4/C20"),
 })
+CHECKS.update({
+ "C01": dict(
+   technique="bounded-exhaustive enumeration of builder-operation sequences over the program families FX/FS/FC/FA/FT, differential execution of the two real pipelines (shape E)",
+   text="Every program of the families below the operation bound is compiled and run sample by sample on the bytecode VM and on the WASM backend (the CLI's runtime path) with the same input streams, scheduler installed and not installed; accept/reject, channel counts and every output word are compared bitwise with all NaNs identified.",
+   note="Programs are the harness's families (expressions over an edge-value domain incl. NaN/inf/-0, state layout, closures, aggregates, scheduled tasks); programs above the bound and plugin-specific functions are not covered.",
+   design="4/C01"),
+ "C02": dict(
+   technique="bounded-exhaustive enumeration of builder-operation sequences over FX/FS/FC/FA, compared with a reference interpreter written in the harness (shape E)",
+   text="Every program of the families below the operation bound is run on the VM and on the harness's own call-by-value interpreter with state keyed by call path; output streams must be numerically equal at every sample and channel for every input stream.",
+   note="Trusts the reference interpreter (about 400 lines, boring by construction) and the builder's printer; constructs whose meaning the statement leaves open are outside the alphabet (reported as reference_undefined, not as failures).",
+   design="4/C02"),
+})
 NOT_YET = {}
 
 def main():
